@@ -103,6 +103,7 @@ type Interp struct {
 	killed  bool
 	abort   interface{}
 	explore bool // schedule exploration on
+	preemptions, preemptionBound int
 	nextChanID int
 
 	// modelled runtime objects
